@@ -206,6 +206,15 @@ fn corrupt(cx: &mut Cx, holder: NodeId, key: Arc<KeyMat>, issued: Arc<Cred>, sin
     { let mut d = (*issued).clone(); d.msgs.pop(); send(cx, d, "attr_drop_last".into()); }
     if n < MAX_ATTR { let mut d = (*issued).clone(); d.msgs.push(Integer::from(7)); d.bases = key.bases.0[..n + 1].to_vec(); send(cx, d, "attr_added".into()); }
     { let mut d = (*issued).clone(); d.msgs.push(Integer::from(0)); send(cx, d, "attr_added_beyond_bases".into()); }
+    { let mut d = (*issued).clone(); d.msgs.push(Integer::from(7)); send(cx, d, "attr_added_beyond_bases:nonzero".into()); }
+    { let mut d = (*issued).clone(); d.msgs.push(gen_attr(cx.run_seed, 950, 0).value); d.msgs.push(Integer::from(1)); send(cx, d, "attr_added_beyond_bases:two".into()); }
+    // two attributes changed at once, one up by a small multiple and the other down by one: the
+    // same signature would verify if the bases were related (a_j a small power of a_i)
+    for i in 0..n { for j in 0..n { if i == j || issued.msgs[j] == 0 { continue; } for c in [1u32, 2, 3, 4, 8, 16] {
+        let mut d = (*issued).clone(); d.msgs[i] += c; d.msgs[j] -= 1u32;
+        if d.msgs[i] >= (Integer::from(1) << LM) { continue; }
+        send(cx, d, format!("attr_trade:+{c}@{i},-1@{j}"));
+    } } }
     // signature components
     for (fname, which) in [("e", 0), ("s", 1), ("v", 2)] {
         for (pn, f) in [("+1", 1i32), ("-1", -1), ("zero", 0)] {
